@@ -84,3 +84,22 @@ case("C03", "x-clone-input-write", "VIOLATION", [(P, "X_ = X[start:end].to(devic
 case("C03", "slice-object-shared", "HOLDS", [(P, "end = start + batch_size\n\t\t\tX_ = X[start:end].to(device).type(dtype)", "end = batch_size + start\n\t\t\tX_ = X[start:end].type(dtype).to(device)")])
 case("C03", "end-inline", "HOLDS", [(P, "args_ = [a[start:end].to(device) for a in args]", "args_ = [a[start:start + batch_size].to(device) for a in args]")])
 case("C03", "no-eval", "VIOLATION", [(P, "model = model.to(device).eval()", "model = model.to(device)")], "R-EVAL")
+
+# ------------------------------------------------------------------ C09
+I = "tangermeme/ism.py"
+prefix("C09", "D3-prefix-tuple-reshape", I, "5d2d112", "R-AXES", "ism.saturation_mutagenesis")
+case("C09", "tensor-branch-transposed", "VIOLATION", [(I, "y_hat = torch.stack(y_hat).reshape(X.shape[0], X.shape[1], end-start, \n\t\t\t*y_hat_.shape[1:])", "y_hat = torch.stack(y_hat).reshape(X.shape[0], end-start, X.shape[1], \n\t\t\t*y_hat_.shape[1:]).transpose(1, 2)")], "R-AXES")
+case("C09", "product-swapped", "VIOLATION", [(I, "coords = itertools.product(range(X.shape[0]), range(start, end))\n\tfor i, (j, k) in enumerate(coords):", "coords = itertools.product(range(start, end), range(X.shape[0]))\n\tfor i, (k, j) in enumerate(coords):")], "R-AXES")
+case("C09", "product-swapped-consistent", "HOLDS", [(I, "coords = itertools.product(range(X.shape[0]), range(start, end))\n\tfor i, (j, k) in enumerate(coords):", "coords = itertools.product(range(start, end), range(X.shape[0]))\n\tfor i, (k, j) in enumerate(coords):"),
+      (I, "y_hat = torch.stack(y_hat).reshape(X.shape[0], X.shape[1], end-start, \n\t\t\t*y_hat_.shape[1:])", "y_hat = torch.stack(y_hat).reshape(X.shape[0], end-start, X.shape[1], \n\t\t\t*y_hat_.shape[1:]).transpose(1, 2)"),
+      (I, "torch.cat(y_).reshape(X.shape[0], X.shape[1], end-start, \n\t\t\t\t*y_[0].shape[1:]) for y_ in zip(*y_hat)", "torch.cat(y_).reshape(X.shape[0], end-start, X.shape[1], \n\t\t\t\t*y_[0].shape[1:]).transpose(1, 2) for y_ in zip(*y_hat)")])
+case("C09", "window-ignored-in-reshape", "VIOLATION", [(I, "torch.cat(y_).reshape(X.shape[0], X.shape[1], end-start, \n\t\t\t\t*y_[0].shape[1:]) for y_ in zip(*y_hat)", "torch.cat(y_).reshape(X.shape[0], X.shape[1], X.shape[2], \n\t\t\t\t*y_[0].shape[1:]) for y_ in zip(*y_hat)")], None, "ism.saturation_mutagenesis")
+case("C09", "mutant-no-zeroing", "VIOLATION", [(I, "\t\tX_[i, :, k] = 0\n", "")], "MUTANT")
+case("C09", "args-wrong-row", "VIOLATION", [(I, "a[i].repeat(X_.shape[0], *(1 for _ in a[i].shape))", "a[0].repeat(X_.shape[0], *(1 for _ in a[0].shape))")], "ARGS")
+case("C09", "y0-without-args", "VIOLATION", [(I, "y0 = predict(model, X, args=args, device=device)", "y0 = predict(model, X, args=None, device=device)")], "ROLE")
+case("C09", "attr-center-wrong-axis", "VIOLATION", [(I, "attr -= torch.mean(attr, dim=1, keepdims=True)", "attr -= torch.mean(attr, dim=2, keepdims=True)")], "R-TERM")
+case("C09", "attr-sign-flipped", "VIOLATION", [(I, "attr = y_hat[:, :, :, target] - y0[:, None, None, target]", "attr = y0[:, None, None, target] - y_hat[:, :, :, target]")], "R-TERM")
+case("C09", "attr-equivalent-spelling", "HOLDS", [(I, "attr -= torch.mean(attr, dim=1, keepdims=True)", "attr = attr - attr.mean(dim=1, keepdim=True)")])
+case("C09", "mask-inverted", "VIOLATION", [(I, "return X[:, :, start:end] * attr if hypothetical == False else attr", "return X[:, :, start:end] * attr if hypothetical == True else attr")], "MASK")
+case("C09", "mask-whole-x", "VIOLATION", [(I, "return X[:, :, start:end] * attr if hypothetical == False else attr", "return X[:, :, start:] * attr if hypothetical == False else attr")], "MASK")
+case("C09", "count-off", "VIOLATION", [(I, "X_ = X.repeat((end-start)*X.shape[0], 1, 1)", "X_ = X.repeat((end-start)*X.shape[0] + 1, 1, 1)")], "COUNT")
